@@ -328,57 +328,17 @@ def run(p: Program, rep: Report, tier: str) -> None:
     for name, fn in hs.items():
         rep.analysed(fn.fq)
         eff = helper_effects(fn)
-        src = ast.unparse(fn.node)
-        handled = {e for e in events if re.search(rf"isinstance\(\w+, \(?[^)]*\b{e}\b", src)}
-        for e in events:
-            if e in handled:
+        # what happens for an event of each kind, decided on the paths of one loop iteration (mp_iter)
+        from .mp_iter import helper_rules
+        for rule_, kind_, cons_, msg_ in helper_rules(p, name, fn):
+            if rule_ != "R1.4":
                 continue
-            if e == "Preamble":
-                rep.ok("R1.4", f"{name}: Preamble is deliberately ignored (no branch needed)")
+            if kind_ == "ok":
+                rep.ok("R1.4", msg_)
+            elif kind_ == "undecided":
+                rep.undecide("R1.4", msg_)
             else:
-                rep.violation("R1.4", construct(fn, text=f"event class {e} unhandled"), where(fn), f"{name} has no isinstance branch for the decoder event {e}")
-
-        def find(kind: str, text: str) -> List[Effect]:
-            return [e for e in eff if e.kind == kind and e.text == text]
-
-        def need(kind: str, text: str, pos: List[str], neg: List[str], what: str) -> Optional[Effect]:
-            c = find(kind, text)
-            if not c:
-                rep.violation("R1.4", construct(fn, text=f"missing: {text}"), where(fn), f"{name}: {what} - the statement `{text}` is gone")
-                return None
-            best = [x for x in c if all(g in set(x.guards) for g in pos)]
-            e = best[0] if best else max(c, key=lambda x: len(x.guards))
-            gs = set(e.guards)
-            for g in pos:
-                if g not in gs:
-                    rep.violation("R1.4", construct(fn, text=f"{text} not under {g}"), where(fn, e.node), f"{name}: `{text}` is no longer guarded by `{g}` ({what})")
-                    return e
-            for g in neg:
-                if g in gs:
-                    rep.violation("R1.4", construct(fn, text=f"{text} under {g}"), where(fn, e.node), f"{name}: `{text}` must not be under `{g}` ({what})")
-                    return e
-            rep.ok("R1.4", f"{name}: {what}")
-            return e
-
-        D = "isinstance(event, Data)"
-        need("call", "data.extend(event.data)", [D, "file is None"], ["not (event.more_data)"], "field data of every Data event is accumulated")
-        need("call", "file.write(event.data)", [D, "not (file is None)"], ["not (event.more_data)"], "file data of every Data event is written as it arrives")
-        e1 = need("call", "items.append((field_name, safe_decode(data, charset)))", [D, "not (event.more_data)", "file is None"], [], "a field is flushed exactly on its last Data event")
-        e2 = need("call", "data.clear()", [D, "not (event.more_data)", "file is None"], [], "the field accumulator is reset after the flush")
-        if e1 and e2 and not (e1.block == e2.block and e1.index < e2.index):
-            rep.violation("R1.4", construct(fn, text="clear before append"), where(fn, e2.node), f"{name}: the accumulator is cleared before the field is appended")
-        s1 = need("call", "file.seek(0)", [D, "not (event.more_data)", "not (file is None)"], [], "an upload is rewound when its last Data event arrives")
-        s2 = need("call", "items.append((field_name, file))", [D, "not (event.more_data)", "not (file is None)"], [], "an upload is appended exactly on its last Data event")
-        s3 = need("assign", "file = None", [D, "not (event.more_data)", "not (file is None)"], [], "the file slot is released after the upload")
-        if s1 and s2 and s3 and not (s1.block == s2.block == s3.block and s1.index < s2.index < s3.index):
-            rep.violation("R1.4", construct(fn, text="seek/append/reset order"), where(fn, s2.node), f"{name}: upload is not rewound before it is appended, or the slot is reset too early")
-        need("assign", "file = file_factory(event.filename, event.headers)", ["isinstance(event, File)"], [], "a File event opens the upload with its filename and headers")
-        names = [e for e in eff if e.kind == "assign" and e.text == "field_name = event.name"]
-        gsets = [set(e.guards) for e in names]
-        if any("isinstance(event, Field)" in g for g in gsets) and any("isinstance(event, File)" in g for g in gsets):
-            rep.ok("R1.4", f"{name}: the part name is taken from both Field and File events")
-        else:
-            rep.violation("R1.4", construct(fn, text="field_name = event.name"), where(fn), f"{name}: the part name is not recorded for both Field and File events")
+                rep.violation("R1.4", construct(fn, text=cons_), where(fn), msg_)
         rc = [e for e in eff if e.kind == "call" and e.text == "parser.receive_data(chunk)"]
         if not rc:
             rep.violation("R1.4", construct(fn, text="receive_data"), where(fn), f"{name}: chunks are not fed to the decoder")
